@@ -243,7 +243,7 @@ func init() {
 			res, _ := runTrajectory(sc, env, nil, []Oracle{o}, nil)
 			return res
 		},
-		Quick: 600, Thorough: 20000,
+		Quick: 2000, Thorough: 60000,
 		NonTrivial: func(res *Result) bool { return res.Status == "ok" && res.Stats["crop.cycles"] > 0 },
 		Rule:       "one generated world per evaluation (every shipped annual crop, classic and YAML parameters, varieties, N supply zero..excess, drought, heat, frost, waterlogging, three CO2 methods), run by the real session.Run; crop state invariants after each day's growth step; the crop result file's phenology is compared with the stage transitions observed on absolute simulated days; non-trivial = at least one crop cycle was observed",
 		ReachKeys:  []string{"crop.cycles", "reach.maturity", "reach.n-stress", "reach.water-stress", "reach.root-limit", "reach.frost-on-crop", "reach.winter-crop-across-year"},
